@@ -525,7 +525,7 @@ fn build_artifact(kind: &str, aseed: u64, n: u32, root: &std::path::Path) -> Res
 }
 
 /// All corruptions of an artifact, as (label, bytes).
-fn corruptions(a: &Artifact, rng: &mut Rng) -> Vec<(String, &'static str, Vec<u8>)> {
+fn corruptions(a: &Artifact, rng: &mut Rng, multi: bool) -> Vec<(String, &'static str, Vec<u8>)> {
     let mut out = Vec::new();
     let total: usize = a.protected.iter().map(|r| r.len()).sum();
     // positions: all when <= 4 KiB, else a window of 4 KiB plus the first/last 64 bytes of every range
@@ -562,6 +562,32 @@ fn corruptions(a: &Artifact, rng: &mut Rng) -> Vec<(String, &'static str, Vec<u8
                 let mut b = a.bytes.clone();
                 b[p] = v;
                 out.push((format!("subst_{name}@{p}"), "subst", b));
+            }
+        }
+    }
+    // substitutions of MORE than one byte (still one corruption event per load): two bytes d apart swapped, the same
+    // XOR delta in two bytes d apart (d = 1, 2, 3, 4, 8, 16: the word sizes and lane widths of rotating / folding
+    // checksums), NOT runs of zeroed bytes: an all-zero hash guard is these formats' empty-slot marker, so a zeroed entry is an absent one by definition. A checksum built from several sums must not be weaker than its strongest
+    // one: a sum that only XORs or adds bytes lane by lane cannot see these, a real hash does.
+    if multi {
+        let pos_set: std::collections::HashSet<usize> = positions.iter().copied().collect();
+        let stride = if small { 1 } else { 11 };
+        for &p in positions.iter().step_by(stride) {
+            for d in [1usize, 2, 3, 4, 8, 16] {
+                let q = p + d;
+                if !pos_set.contains(&q) {
+                    continue;
+                }
+                if a.bytes[p] != a.bytes[q] {
+                    let mut b = a.bytes.clone();
+                    b.swap(p, q);
+                    out.push((format!("swap@{p}+{d}"), "subst2", b));
+                }
+                let delta = [0x01u8, 0x40, 0x80, 0xFF, (rng.next_u64() & 0xFF) as u8 | 2][(p + d) % 5];
+                let mut b = a.bytes.clone();
+                b[p] ^= delta;
+                b[q] ^= delta;
+                out.push((format!("xor2_{delta:02x}@{p}+{d}"), "subst2", b));
             }
         }
     }
@@ -603,12 +629,12 @@ impl Scenario for Corrupt {
         "one corruption of one artifact instance loaded by the real reader (or one cache operation in a put/corrupt/get sequence)"
     }
     fn rule(&self) -> &'static str {
-        "Per run one artifact instance is produced by the real writer (EncodingBuilder, ArchiveIndexBuilder, lru_file::serialize, UpdateEntry::new, ResidencyEntry::new, LocalHeader::new, whole .idx bucket files from IndexManager::save_all with 2-6 or (one in three) 21-64 pending update entries = 1-4 pages, whole residency files from ResidencyDb::save with 2-10 or 25-60 keys in a bucket, the Ribbit server's handle_v1_command with its SHA-256 Checksum epilogue - as the server frames it or, one instance in three, re-framed the way the official service does: endpoint-class disposition + detached signature part) from seeded content, and then corrupted inside the region its checksum is defined over: EVERY single-bit flip (all positions when the region is <= 4 KiB, else a seeded 4 KiB window plus the first/last 64 bytes of each range), 0x00/0xFF/random byte substitutions, truncation at every length, extensions for whole-file checksums. The real reader must refuse (Err / validator says invalid); Ok with different content is the violation; Ok with equal content is counted. Cache runs: seeded sequences of put_validated/put_with_validation, corrupt/delete the disk layer's file, get_validated/get_with_validation on ContentAddressedCache<DiskCache> and MultiLayerCacheImpl+Md5ValidationHooks: every Some(bytes) must hash to the requested key, and after a detected corruption the next read must not serve the entry. evaluations = corruptions + cache ops; distinct = hash of (kind, artifact bytes, verdict vector)."
+        "Per run one artifact instance is produced by the real writer (EncodingBuilder, ArchiveIndexBuilder, lru_file::serialize, UpdateEntry::new, ResidencyEntry::new, LocalHeader::new, whole .idx bucket files from IndexManager::save_all with 2-6 or (one in three) 21-64 pending update entries = 1-4 pages, whole residency files from ResidencyDb::save with 2-10 or 25-60 keys in a bucket, the Ribbit server's handle_v1_command with its SHA-256 Checksum epilogue - as the server frames it or, one instance in three, re-framed the way the official service does: endpoint-class disposition + detached signature part) from seeded content, and then corrupted inside the region its checksum is defined over: EVERY single-bit flip (all positions when the region is <= 4 KiB, else a seeded 4 KiB window plus the first/last 64 bytes of each range), 0x00/0xFF/random byte substitutions, substitutions of more than one byte (two bytes 1/2/3/4/8/16 apart swapped or XORed with one delta; not for mime_v1, see C07-F2), truncation at every length, extensions for whole-file checksums. The real reader must refuse (Err / validator says invalid); Ok with different content is the violation; Ok with equal content is counted. Cache runs: seeded sequences of put_validated/put_with_validation, corrupt/delete the disk layer's file, get_validated/get_with_validation on ContentAddressedCache<DiskCache> and MultiLayerCacheImpl+Md5ValidationHooks: every Some(bytes) must hash to the requested key, and after a detected corruption the next read must not serve the entry. evaluations = corruptions + cache ops; distinct = hash of (kind, artifact bytes, verdict vector)."
     }
     fn assumptions(&self) -> Vec<&'static str> {
         vec![
             "the protected region is taken from each checksum's own definition (LRU: whole file; update entry: bytes 0..23; residency entry: 0..37; local header: 0..0x1E; MIME: every byte before the last 'Checksum: ' line; encoding: the pages; archive index: the 12 hashed footer bytes + the footer hash)",
-            "single corruptions (one flip / substitution / truncation / extension per load), not combinations",
+            "one corruption event per load (one flip / substitution of one byte or of two bytes at most 16 apart / truncation / extension), not combinations of events",
             "a load that succeeds with content logically equal to the original is not a violation (the changed bit was not semantically protected); it is counted as accepted_same",
         ]
     }
@@ -674,7 +700,9 @@ impl Scenario for Corrupt {
             Verdict::Different(d) => panic!("harness: the uncorrupted {} artifact loads as something else: {d}", case.kind),
         }
         let mut rng = Rng::new(case.aseed ^ 0xC0FF_EE);
-        let all = corruptions(&art, &mut rng);
+        // (mime_v1 is left out of the multi-byte class: its checksum line is optional for the parser - known finding
+        // C07-F2 - so a pair of changes of which one hides the checksum line is that finding again, not a new one)
+        let all = corruptions(&art, &mut rng, case.kind != "mime_v1");
         ctx.event(|| json!({"k":"artifact","kind":case.kind,"len":art.bytes.len(),"protected":art.protected.iter().map(|r| [r.start, r.end]).collect::<Vec<_>>(),"corruptions":all.len()}));
         for (i, (label, kind, bytes)) in all.iter().enumerate() {
             if case.only.is_some_and(|o| o != i as u64) {
